@@ -1,13 +1,49 @@
+
+import os as _os, subprocess as _sp
+
+
+class _FocusEnv(dict):
+    """search_env of bin/check's directed search (it runs only after a table theorem or the correspondence
+    broke and the ordinary run showed no failing input).  Evaluated when the search starts - the tables are
+    regenerated and the runner is rebuilt by then: asks the runner (entry C12-focus) which handlers' regenerated
+    rows fail a table check and hands their names to the harness as VERIF_FOCUS; with no broken row to name
+    (a sweep, a closed-world check, a correspondence mismatch) the static part alone applies."""
+
+    def items(self):
+        out = dict(self)
+        root = _os.path.dirname(_os.path.dirname(_os.path.dirname(_os.path.abspath(_FocusEnv.items.__code__.co_filename))))
+        try:
+            p = _sp.run([_os.path.join(root, "runner", "runner"), "C12-focus", "/dev/null"], stdout=_sp.PIPE, stderr=_sp.DEVNULL,
+                        timeout=120, text=True)
+            names = [l.split()[1] for l in p.stdout.splitlines() if l.startswith("FOCUS ") and len(l.split()) == 2]
+        except Exception:
+            names = []
+        if names:
+            out["VERIF_FOCUS"] = ",".join(sorted(set(names)))
+            out.update(self.focused)
+        else:
+            out.update(self.unfocused)
+        return out.items()
+
+
+_search_env = _FocusEnv(dict(VERIF_HIST=6), VERIF_DIRECTED=1)
+_search_env.focused = dict(VERIF_HIST=24)
+_search_env.unfocused = dict()
+
 PROP = dict(
         coq="Properties/C12.v",
         workloads=[
             dict(name="authority-matrix", go_test="TestC12", runner="C12",
                  env=dict(quick=dict(VERIF_HIST=2), thorough=dict(VERIF_HIST=8))),
         ],
-        rule="case = one message run through the MsgServiceRouter on its own store branch of a prepared state holding one position of every kind "
-             "(vault, stable-mint vault, locker, lend, borrow, resting limit order, 20 market-making orders, farm position, limit bid, running auction), "
-             "reached after a random short history of the owner's own operations: every method of the vault / locker / lend / liquidity / auctionsV2 msg servers "
-             "x {owner, non-owner, fresh random funded account}; plus every variant of bindings.ComdexMessages (read off the Go type by reflection) through the real "
+        search_env=_search_env,
+        rule="case = one message run through the MsgServiceRouter on its own store branch of a prepared state in which THREE accounts each hold one position of every kind "
+             "(vault, locker, two lend positions, borrow, resting limit order, market-making orders, farm position, limit bid; one shared stable-mint vault, a running auction) "
+             "with the numeric ids of the different kinds deliberately misaligned across owners (vault #n, lend #n, borrow #n belong to three different accounts; borrow #n sits on lend #n+3), "
+             "reached after a random short history of the owner's own operations: every method of the vault / locker / lend / liquidity / auctionsV2 msg servers naming the positions of EVERY owner "
+             "x signer {the owner, each of the two other position owners (who own a position of another kind with the same numeric id and one of the same kind with another id), an account owning nothing, "
+             "a fresh random funded account}; observed: result class, digest of all DeFi stores + bank before/after, digest of the named owner's balances and position records before/after; "
+             "the runner demands that every position message of the regenerated table was run by its owner successfully, by another position owner, and (id-naming messages) by a signer owning the same id of another kind; plus every variant of bindings.ComdexMessages (read off the Go type by reflection) through the real "
              "CustomMessenger.DispatchMsg x chain id {comdex-1, comdex-test3, verif-1, comdex-2} x sender {governance contract, emission contract, the other network's contract, random}; "
              "plus MsgKillSwitch x {admin, 5 others}. non-trivial = a non-owner run of a position message, a wasm case the ladder must reject, a non-admin kill switch; "
              "distinct by digest of (handler, signer, history length, class) / (variant, chain, sender)",
@@ -15,11 +51,12 @@ PROP = dict(
                   "handlers as guard lists: only the top-level structure of the handler body is modelled (translator trusted to read it; cross-checked by the matrix run)",
                   "wasm VM and contract execution (DispatchMsg is called directly with the contract address)"],
         assumptions=["positions of the fixture state are representative of reachable states (plus random owner histories)",
+                     "the reviewed id kinds of lookups and key fields (GuardsCheck.lookup_info / key_kind / owner_fields) are right; a write is recorded by callee name only, so the table does not say that the compared record is the very record later mutated - the chain from the message's own id field to the compared record stands for it",
                      "the reviewed exemption list (stable-mint vault = shared pool; interest/reward calc only accrue; liquidation is permissionless) is accepted"],
     )
 
 MANIFEST = dict(
-    level_text="Finite-table proof over tables REGENERATED from the Go source on every run (registered sdk.Msg types with signer / id fields; for every msgServer method the ordered guard checks, writes and early returns with delegation inlined; DispatchMsg's variant->handler map and each handler's chain-id/sender ladder): every message type that names a position and is not in the reviewed exemption list has an owner comparison or signer-keyed lookup on every path to success (vm_compute + forallb_forall), lifted by a generic lemma to 'for every store, write effect and outcome of the other checks a non-owner is rejected and nothing is committed'; every custom wasm variant on comdex-1 / comdex-test3 is accepted only from its designated contract; MsgKillSwitch only from an admin. The tables are cross-checked against the real code by a matrix run of every handler x owner/non-owners and every wasm variant x chain x sender.",
+    level_text="Finite-table proof over tables REGENERATED from the Go source on every run (registered sdk.Msg types with signer / id fields; for every msgServer method the ordered guard checks, writes and early returns with delegation inlined; DispatchMsg's variant->handler map and each handler's chain-id/sender ladder): every message type that names a position and is not in the reviewed exemption list has an owner comparison or signer-keyed lookup on every path to success (vm_compute + forallb_forall), and every owner comparison on its walk is made on a record fetched through a chain of lookups keyed, link by link, by an id of the kind the lookup expects and starting at a position-id field of the message itself (the translator records which record's owner field is compared and how the record was obtained; a lend looked up by a borrow's own id fails), lifted by a generic lemma to 'for every store, write effect and outcome of the other checks a non-owner is rejected and nothing is committed'; every custom wasm variant on comdex-1 / comdex-test3 is accepted only from its designated contract; MsgKillSwitch only from an admin. The tables are cross-checked against the real code by a matrix run of every handler, naming the positions of each of three owners whose position ids are deliberately misaligned across kinds, x {owner, the two other position owners, an account owning nothing, a fresh account} and every wasm variant x chain x sender.",
     design_ref="DESIGN.md section 4 C12",
     level_note="Trusted: Coq kernel, the translator tools/goextract (unrecognised shapes fail closed; dynamic cross-check), extraction, OCaml runner, Go harness; baseapp atomicity modelled. On chain ids other than the two named networks the wasm ladder accepts every sender (theorem c12_wasm_other_chain_accepts). No axioms.",
     technique="Coq proof by computation over regenerated tables + generic guard-list lemma + authority matrix run against the real msg servers and the real CustomMessenger",
